@@ -130,5 +130,6 @@ func (s *CLSignature) Randomize(pk *gabikeys.PublicKey) (*CLSignature, error) {
 	APrime.Mod(APrime, pk.N)
 	t := new(big.Int).Mul(s.E, r)
 	VPrime := new(big.Int).Sub(s.V, t)
-	return &CLSignature{A: APrime, E: new(big.Int).Set(s.E), V: VPrime}, nil
+	// the keyshare contribution is part of what was signed: the randomised signature verifies with it as the original does
+	return &CLSignature{A: APrime, E: new(big.Int).Set(s.E), V: VPrime, KeyshareP: s.KeyshareP}, nil
 }
